@@ -1,6 +1,7 @@
 import FimVerif.Drivers.Proto
 import FimVerif.Model.Codec
 import FimVerif.Model.CodecHist
+import FimVerif.Model.CodecFail
 import FimVerif.Model.IsoDate
 import FimVerif.Generated.Fields
 /-! Line-protocol driver for the C03 codec models.
@@ -95,6 +96,15 @@ def piOfWire (j : Json) : Option PathInfo := do
     | _ => none
   some { type := t, payload := pl, strict := strict }
 
+def payloadOfWire : Json → Option Payload
+  | .null => some Payload.unset
+  | .obj kvs =>
+    match kvs.get? "path", kvs.get? "raw" with
+    | some (.arr #[a, z]), _ => do some (Payload.path (← ofWire a) (← ofWire z))
+    | _, some r => (ofWire r).map Payload.raw
+    | _, _ => none
+  | _ => none
+
 def piToWire (p : PathInfo) : Json :=
   Json.mkObj [("type", match p.type with | none => .null | some t => .str t.str),
     ("strict", toWire p.strict),
@@ -136,13 +146,13 @@ def miRun : List Json → MInfo → List Json → List Json
     | .arr #[.str "add", .str n, e] =>
       match entryOfWire e with
       | none => miRun rest m (err "bad-args" :: acc)
-      | some e => match m.add n e with
-        | .ok m' => miRun rest m' (ok .null :: acc)
-        | .error x => miRun rest m (err x :: acc)
+      | some e => match miStep m (.add n e) with          -- the state after a rejected step is the model's (`Model/CodecFail.lean`)
+        | (m', none) => miRun rest m' (ok .null :: acc)
+        | (m', some x) => miRun rest m' (err x :: acc)
     | .arr #[.str "rem", .str n] =>
-      match m.rem n with
-      | .ok m' => miRun rest m' (ok .null :: acc)
-      | .error x => miRun rest m (err x :: acc)
+      match miStep m (.rem n) with
+      | (m', none) => miRun rest m' (ok .null :: acc)
+      | (m', some x) => miRun rest m' (err x :: acc)
     | .arr #[.str "pop", .str n] =>
       match m.pop n with
       | .ok (e, m') => miRun rest m' (ok (entryToWire e) :: acc)
@@ -174,6 +184,9 @@ def typesOf (cat : String) : List (List Char) :=
 
 def showTT (r : Except Err TTuple) : Json :=
   exc r fun t => Json.arr #[.str (String.ofList t.type), toWire t.val, .str (String.ofList (ttEncode t))]
+
+def showTTState (t : TTuple) : Json :=
+  Json.arr #[.str (String.ofList t.type), toWire t.val, .str (String.ofList (ttEncode t))]
 
 def maxOf (cls : String) : Nat :=
   match Gen.Fields.jsonDataMax.find? (fun p => p.1 == cls) with
@@ -354,6 +367,53 @@ def handle (j : Json) : Json :=
     | none => err "bad-args"
   | .arr #[.str "tt.from", .str cat, .str s] => showTT (ttFromString (typesOf cat) wsPred s.toList)
   | .arr #[.str "tt.parse", .str cat, .str s] => showTT (ttParse (typesOf cat) s.toList)
+  -- histories with rejected calls: every reply carries the state AFTER the step
+  | .arr #[.str "tt.seq", .str cat, init, .arr steps] =>
+    let t0 : Option (Except Err TTuple) := match init with
+      | .arr #[.str "new", .str t, v] => (ofWire v).map fun v => ttNew (typesOf cat) t.toList v
+      | .arr #[.str "from", .str s] => some (ttFromString (typesOf cat) wsPred s.toList)
+      | _ => none
+    match t0 with
+    | none => err "bad-args"
+    | some (.error e) => err e
+    | some (.ok t) =>
+      let (_, out) := steps.toList.foldl (fun (acc : TTuple × List Json) st =>
+        match st with
+        | .str s =>
+          let r := ttStep (typesOf cat) acc.1 s.toList
+          (r.1, Json.arr #[match r.2 with | none => .null | some e => .str e, showTTState r.1] :: acc.2)
+        | _ => (acc.1, Json.str "bad-step" :: acc.2)) (t, [])
+      ok (Json.arr #[showTTState t, .arr out.reverse.toArray])
+  | .arr #[.str "jf.seq", .str cls, kw, .arr calls] =>
+    match specOf cls, pairsOfWire kw with
+    | some c, some kvs =>
+      match construct c anyValid kvs with
+      | .error e => err e
+      | .ok x =>
+        let (_, out) := calls.toList.foldl (fun (acc : Fields × List Json) call =>
+          match call with
+          | .arr #[.bool fg, kw] =>
+            match pairsOfWire kw with
+            | some kvs =>
+              let r := setFieldsIP c anyValid fg kvs acc.1
+              (r.1, Json.arr #[match r.2 with | none => .null | some e => .str e, showFields c r.1] :: acc.2)
+            | none => (acc.1, Json.str "bad-step" :: acc.2)
+          | _ => (acc.1, Json.str "bad-step" :: acc.2)) (x, [])
+        ok (Json.arr #[showFields c x, .arr out.reverse.toArray])
+    | _, _ => err "bad-args"
+  | .arr #[.str "pi.seq", .bool ero, p, .arr pls] =>
+    match piOfWire p with
+    | none => err "bad-args"
+    | some p =>
+      let enc := if ero then eroEncode else pathInfoEncode
+      let showP (q : PathInfo) : Json := Json.arr #[piToWire q, match enc q with | .ok j => ok (.str j.render) | .error e => err e]
+      let (_, out) := pls.toList.foldl (fun (acc : PathInfo × List Json) pl =>
+        match payloadOfWire pl with
+        | some pl =>
+          let r := piStep acc.1 pl
+          (r.1, Json.arr #[match r.2 with | none => .null | some e => .str e, showP r.1] :: acc.2)
+        | none => (acc.1, Json.str "bad-step" :: acc.2)) (p, [])
+      ok (Json.arr #[showP p, .arr out.reverse.toArray])
   | _ => err "bad-request"
 
 def main : IO Unit := run handle
